@@ -7,7 +7,13 @@ package hashing
 // the modelled heap: Salted/Do change nothing a caller can observe.
 
 /*@
+// MODELLING ASSUMPTION (C02/C04 are stated for one hash function): every Hasher computes the
+// function H of the concatenation of its arguments; Salted hashes the data first, the salt last
+// (that order is what XorHasher/KeyHasher/PearsonHasher.Salted do: data = append(data, salt)).
 func Hasher.Salted
+  // (the interface declares no parameter names: arg0 is the salt, arg1 the data)
+  assumes len(arg1) == 1 ==> bytes(result) == H(cat(bytes(arg1[0]), bytes(arg0)))
+  assumes len(arg1) == 2 ==> bytes(result) == H(cat(cat(bytes(arg1[0]), bytes(arg1[1])), bytes(arg0)))
 func Hasher.Do
 func Hasher.Len
   ensures result >= 8 && result % 8 == 0
